@@ -4,6 +4,7 @@ from .. import env, attach, gen, flow, solve
 from ..refmodel import RefLP, eao_point
 
 PROPERTY = 'C02'
+gen.OFFGRID = 0.12      # some asset windows start or end strictly between two grid points
 CASES = {'quick': 540, 'thorough': 4320}
 BUDGET_S = {'quick': 200, 'thorough': 1800}
 RULE = ('case = one random portfolio over {SimpleContract, Contract (spread, time-varying capacity dictionaries, min/max take partly outside the '
